@@ -441,6 +441,149 @@ class Gen:
             steps.append(s)
         return {'k': r.choice(['tuple', 'tuple', 'pipe']), 'xs': steps}
 
+    # ------------------------------------------------------------ skipped steps in binding chains (C07)
+    SKIPV = {'k': 'val', 'v': {'sent': 'SKIP'}}
+
+    def skipper(self, cur, name=None):
+        """a step that evaluates to SKIP on the value `cur`: the chain keeps its previous result as the
+        target -- and, like every other step, the step's finished scope is what the next link chains from.
+        Shapes: Val(SKIP), a callable returning SKIP, Coalesce(<fails>, default=SKIP), Or(<fails>,
+        default=SKIP), Switch -> Val(SKIP), Spec(Val(SKIP)) (with or without a scope= binding of its own:
+        a skipped step that binds), Auto(Val(SKIP)), a Ref definition whose body yields SKIP"""
+        r = self.rng
+        SK = self.SKIPV
+        LSK = {'k': 'lit', 'v': {'sent': 'SKIP'}}
+        T0 = {'k': 't', 'steps': []}
+        p = r.random()
+        if p < 0.3:
+            return SK
+        if p < 0.45:
+            return self.fn('skip_if_truthy' if cur else 'skip_if_falsy')
+        if p < 0.62:
+            bad = r.choice([{'k': 'str', 's': 'zz'}, {'k': 't', 'steps': [['[', jv('nope')]]}, self.fn('raise_glom')])
+            return {'k': 'coalesce', 'subs': [bad] if r.random() < 0.8 else [], 'dflt': r.choice([SK, LSK]),
+                    'dflt_factory': None, 'skip': None, 'skip_exc': ['GlomError']}
+        if p < 0.72:
+            scope = []
+            if r.random() < 0.5:
+                scope = [[name if name and r.random() < 0.6 else r.choice(self.POOL), jv(r.choice([2, 'skipstep']))]]
+            return {'k': 'specW', 's': SK, 'scope': scope}
+        if p < 0.79:
+            return {'k': 'or', 'cs': [{'k': 'str', 's': 'zz'}], 'dflt': LSK}
+        if p < 0.86:
+            return {'k': 'switch', 'cases': [[T0, SK]], 'dflt': None}
+        if p < 0.93:
+            return {'k': 'auto', 's': SK}
+        return {'k': 'ref', 'name': 'rs', 'sub': SK}
+
+    def stopper(self, cur):
+        """a step that evaluates to STOP on the value `cur`"""
+        r = self.rng
+        ST = {'k': 'val', 'v': {'sent': 'STOP'}}
+        p = r.random()
+        if p < 0.5:
+            return ST
+        if p < 0.75:
+            return self.fn('stop_if_truthy' if cur else 'stop_if_falsy')
+        return {'k': 'coalesce', 'subs': [{'k': 'str', 's': 'zz'}], 'dflt': ST, 'dflt_factory': None, 'skip': None,
+                'skip_exc': ['GlomError']}
+
+    def s_skipchain(self, v, depth):
+        """a tuple / Pipe in which a binder step is directly followed by one or more steps that evaluate to
+        SKIP (sometimes a STOP instead: nothing later runs) and then by readers of the bound name (bare, in
+        a dict / nested chain, under Coalesce(default=)), optionally after an outer binding of the same
+        name made earlier in the chain (shadowing), a second binder, a pass-through step between the skips,
+        and with SKIP as the last step.  A binding is visible to ALL later steps, whatever the steps in
+        between evaluate to."""
+        r = self.rng
+        T0 = {'k': 't', 'steps': []}
+        name = r.choice(self.POOL)
+        xs = []
+        cur = v                               # binders and skipped steps keep the target
+        p = r.random()
+        if p < 0.3:
+            # an outer binding of the same name earlier in the chain: the inner one must win after the skip
+            xs.append({'k': 'sBind', 'bs': [[name, {'k': 'lit', 'v': jv('outer')}]]} if r.random() < 0.7
+                      else {'k': 'aGlob', 'name': name})
+            if r.random() < 0.3:
+                xs.append(self.skipper(cur, name))
+        elif p < 0.45:
+            s = self.access(cur)
+            st, res = self.run(cur, {'k': 'tuple', 'xs': [s]})
+            if st == 'ok':
+                xs.append(s)
+                cur = res
+
+        def bind_read(nm):
+            """(binder steps, reader) of one kind for the name nm"""
+            q = r.random()
+            rd = {'k': 'sRead', 'name': nm, 'steps': [], 'item': r.random() < 0.4}
+            if q < 0.25:
+                val = r.choice([{'k': 'lit', 'v': jv(r.choice([7, 'inner', None]))}, T0, self.access(cur),
+                                {'k': 'list', 'xs': [T0]}])
+                return [{'k': 'sBind', 'bs': [[nm, val]]}], rd
+            if q < 0.5:
+                return [{'k': 'aBind', 'name': nm}], rd
+            if q < 0.62:
+                return [{'k': 'aGlob', 'name': nm}], {'k': 'sGlobRead', 'name': nm}
+            if q < 0.72:
+                return [{'k': 'let', 'bs': [[nm, r.choice([T0, self.fn(self.fn_for(cur))])]]}], rd
+            if q < 0.8:
+                return [{'k': 'specW', 's': T0, 'scope': [[nm, jv(r.choice([3, 'sv']))]]}], rd
+            if q < 0.9:
+                vs = {'k': 'vars', 'defaults': [[nm, jv('dv')]] if r.random() < 0.4 else []}
+                return [{'k': 'sBind', 'bs': [['vv', vs]]}, {'k': 'aVar', 'var': 'vv', 'name': nm}], \
+                    {'k': 'sVarRead', 'var': 'vv', 'name': nm}
+            rn = r.choice(['r1', 'r2'])
+            return [{'k': 'ref', 'name': rn, 'sub': r.choice([T0, self.fn(self.fn_for(cur)), {'k': 'val', 'v': jv('refd')}])}], \
+                {'k': 'ref', 'name': rn, 'sub': None}
+
+        bs, rd = bind_read(name)
+        readers = [rd]
+        for i, b in enumerate(bs):
+            xs.append(b)
+            if i + 1 < len(bs) and r.random() < 0.5:
+                xs.append(self.skipper(cur, name))          # between S(vv=Vars()) and A.vv.k
+        if r.random() < 0.3:
+            # a second binder right before the skipped step: both stay visible (or the later one shadows)
+            bs2, rd2 = bind_read(name if r.random() < 0.3 else r.choice(self.POOL))
+            xs += bs2
+            readers.append(rd2)
+        st, res = self.run(v, {'k': 'tuple', 'xs': xs})
+        if st == 'ok':
+            cur = res                         # (a Ref definition yields its body's result)
+        stopped = False
+        if r.random() < 0.1:
+            xs.append(self.stopper(cur))
+            stopped = True
+        else:
+            for _ in range(r.choice([1, 1, 1, 2, 3])):
+                xs.append(self.skipper(cur, name))
+                if r.random() < 0.15:
+                    xs.append(r.choice([T0, {'k': 'specW', 's': T0, 'scope': []}, {'k': 'tuple', 'xs': [T0, self.SKIPV]}]))
+        # the readers
+        unb = lambda x: {'k': 'coalesce', 'subs': [x], 'dflt': {'k': 'lit', 'v': jv('unbound')}, 'dflt_factory': None,
+                         'skip': None, 'skip_exc': ['GlomError']}
+        if r.random() < 0.2:
+            readers.append(self.s_reader(cur, 0))
+        q = r.random()
+        if q < 0.3 and len(readers) == 1:
+            xs.append(readers[0])
+        elif q < 0.75:
+            xs.append({'k': 'dict', 'es': [[{'k': 'str', 's': 'r%d' % i}, x if r.random() < 0.5 else unb(x)]
+                                           for i, x in enumerate(readers)]})
+        elif q < 0.9:
+            xs.append({'k': r.choice(['tuple', 'pipe']), 'xs': [T0, unb(readers[0])]})
+            if r.random() < 0.5:
+                xs.append({'k': 'dict', 'es': [[{'k': 'str', 's': 'then'}, T0], [{'k': 'str', 's': 'again'}, unb(readers[-1])]]})
+        else:
+            xs.append({'k': 'call', 'func': self.fn('pack'), 'args': {'k': 'tuple', 'xs': [unb(x) for x in readers]},
+                       'kwargs': {'k': 'dict', 'es': []}})
+        if r.random() < 0.2 and not stopped:
+            last = self.skipper(None, name)                 # SKIP as the last step
+            xs.append(self.SKIPV if last['k'] == 'fn' else last)
+        return {'k': r.choice(['tuple', 'tuple', 'pipe']), 'xs': xs}
+
     def s_and(self, v, depth):
         r = self.rng
         return {'k': r.choice(['and', 'or']), 'cs': [self.spec(v, depth - 1) for _ in range(r.randint(1, 3))],
